@@ -26,6 +26,11 @@ ALL_PROPS = [f'C{i:02d}' for i in range(1, 21)]
 
 
 def apply_edit(root, rel, old, new):
+    if rel == '__patch__':
+        # a kept seeded change (/verif/seeded/<id>/patch.diff), applied to the scratch copy with git apply (works outside a repository)
+        import subprocess
+        r = subprocess.run(['git', 'apply', '--whitespace=nowarn', old], cwd=root, capture_output=True, text=True)
+        return r.returncode == 0
     path = os.path.join(root, rel)
     with open(path, newline='') as f:
         raw = f.read()
@@ -308,6 +313,8 @@ def run_variant(args):
                 return res
         # must still compile
         for rel, _, _ in v['edits']:
+            if rel == '__patch__':
+                continue
             with open(os.path.join(root, rel), encoding='utf-8') as f:
                 compile(f.read(), rel, 'exec')
         if v['kind'] == 'break':
